@@ -25,12 +25,22 @@ duckdb_to_sf_type = {
     "DATE": "date",
     "DECIMAL": "fixed",
     "DOUBLE": "real",
+    "FLOAT": "real",
+    "HUGEINT": "fixed",
     "INTEGER": "fixed",
     "JSON": "variant",
+    "SMALLINT": "fixed",
     "TIME": "time",
     "TIMESTAMP WITH TIME ZONE": "timestamp_tz",
     "TIMESTAMP_NS": "timestamp_ntz",
     "TIMESTAMP": "timestamp_ntz",
+    "TINYINT": "fixed",
+    "UBIGINT": "fixed",
+    "UHUGEINT": "fixed",
+    "UINTEGER": "fixed",
+    "USMALLINT": "fixed",
+    "UTINYINT": "fixed",
+    "UUID": "text",
     "VARCHAR": "text",
 }
 
@@ -39,7 +49,10 @@ def describe_as_rowtype(describe_results: list) -> list[ColumnInfo]:
     """Convert duckdb column type to snowflake rowtype returned by the API."""
 
     def as_column_info(column_name: str, column_type: str) -> ColumnInfo:
-        if not (sf_type := duckdb_to_sf_type.get("DECIMAL" if column_type.startswith("DECIMAL") else column_type)):
+        if column_type.endswith("[]"):
+            # a duckdb list, eg: INTEGER[] from ARRAY_CONSTRUCT(1, 2)
+            sf_type = "array"
+        elif not (sf_type := duckdb_to_sf_type.get("DECIMAL" if column_type.startswith("DECIMAL") else column_type)):
             raise NotImplementedError(f"for column type {column_type}")
 
         info: ColumnInfo = {
